@@ -83,7 +83,10 @@ func EncodeStack(pcs []uintptr, prefix string) string {
 		// TODO(adonovan): this CutLast(".") operation isn't
 		// appropriate for generic function symbols.
 		path, fname := cutLastDot(fr.Function)
-		if path == lastImport {
+		if path == lastImport && path != "" {
+			// (A frame without an import path, such as the single empty
+			// frame of a zero-depth stack, has nothing to abbreviate:
+			// a ditto mark would be expanded to the wrong text.)
 			path = `"` // (a ditto mark)
 		} else {
 			lastImport = path
